@@ -12,7 +12,7 @@
 //	reentrant  setters called with logging / mutating / throwing valueOf arguments: step order of 15.9.5.27-41
 //	invalidroutes  every route into the invalid state (TimeClip overflow by each setter, setTime, NaN arguments,
 //	           constructor overflow, unparsable text, Date.prototype) followed by 1-2 setters, all getters after each step
-//	bigfields  field magnitudes 1e7..1e22, 2^31/2^32/2^53/2^63/2^64 neighbours, ... at every field position, cancelling pairs
+//	bigfields  field magnitudes 1e7..1e22, 2^31/2^32/2^53/2^63/2^64 neighbours, ... at every field position, cancelling pairs, two-digit years x one large field
 //	zones      time.Local set to fixed non-UTC zones: local/UTC twins of getters, setters, constructor vs Date.UTC
 //	history    E2 BFS over the time value under the 8 UTC setters + setTime
 package c12
@@ -51,7 +51,7 @@ func init() {
 			"non-trivial = a probe acts or the receiver is invalid. " +
 			"invalidroutes: route into the invalid state x follow-up setters (2- and 3-step histories), each step compared on return value, getTime, valueOf, 8 accessors, toISOString; non-trivial = the history ends in a valid date. " +
 			"zones: 5 fixed zones x (instants around local/UTC midnight at month/year ends, leap day, epoch, range ends: all get*/getUTC* accessors, getTimezoneOffset, toISOString; 15 setters x arity 0..2; 3^7 constructor/Date.UTC offsets). " +
-			"bigfields: one field (optionally a second, compensating one) replaced by a large finite value, all positions of Date.UTC / new Date / setUTC*; non-trivial = expected result is a number. " +
+			"bigfields: one field (optionally a second, compensating one) replaced by a large finite value, all positions of Date.UTC / new Date / setUTC*; two-digit-year window (-0, 0, +-0.5, 1, 69, 70, 99, 99.9, 100, -1) x every other field large (Date.UTC / new Date adjust, setUTCFullYear does not); non-trivial = expected result is a number. " +
 			"history: BFS over time values from 5 initial values under all setter operations, dedup on the model time value; every transition is " +
 			"executed on a real Date object built by replaying the shortest path and compared on return value, getTime, valueOf and the 8 accessors; " +
 			"non-trivial = pre-state or post-state is a valid date.",
